@@ -777,8 +777,13 @@ fn trim_tokens(tokens: &Vec<LexerToken>) -> &[LexerToken] {
     let mut start = 0;
     let mut end = tokens.len();
 
+    // annotations carry no meaning either: a blank line before a trailing comment is still trailing
+    let is_trimmable = |token: &LexerToken| {
+        [TokenType::Whitespace, TokenType::Subexpression, TokenType::Annotation, TokenType::LineAnnotation].contains(&token.get_token_type())
+    };
+
     for token in tokens.iter() {
-        if token.get_token_type() == TokenType::Whitespace || token.get_token_type() == TokenType::Subexpression {
+        if is_trimmable(token) {
             start += 1;
         } else {
             break;
@@ -786,7 +791,7 @@ fn trim_tokens(tokens: &Vec<LexerToken>) -> &[LexerToken] {
     }
 
     for token in tokens.iter().rev() {
-        if token.get_token_type() == TokenType::Whitespace || token.get_token_type() == TokenType::Subexpression {
+        if is_trimmable(token) {
             end -= 1;
         } else {
             break;
